@@ -461,3 +461,76 @@ func ruleOPT6(c *Ctx) {
 	}
 	c.Floor("flag reads in one-sided code", n, 100)
 }
+
+func init() {
+	register(&Rule{ID: "OPT-7", Doc: "option values handed out are never aliases of option values handed in: every exported function of json/jsontext/v1 that takes Options parameters and returns Options returns a constant, a fresh local struct, or the address of a package-level default — never (something derived from) one of its parameters", Run: ruleOPT7})
+}
+
+func ruleOPT7(c *Ctx) {
+	p := c.P
+	optsIface := p.NamedType("jsonopts", "Options")
+	if optsIface == nil {
+		c.Undecide("jsonopts.Options", "type missing")
+		return
+	}
+	isOpts := func(t types.Type) bool {
+		t = types.Unalias(t)
+		if sl, ok := t.(*types.Slice); ok {
+			t = types.Unalias(sl.Elem())
+		}
+		return types.Identical(t, optsIface)
+	}
+	n := 0
+	for _, f := range p.FuncsIn("json", "jsontext", "v1") {
+		if f.Decl == nil || f.Body() == nil || f.Obj == nil || !f.Obj.Exported() {
+			continue
+		}
+		sig := f.Obj.Type().(*types.Signature)
+		if sig.Results().Len() != 1 || !isOpts(sig.Results().At(0).Type()) {
+			continue
+		}
+		params := map[types.Object]bool{}
+		for i := 0; i < sig.Params().Len(); i++ {
+			if isOpts(sig.Params().At(i).Type()) {
+				params[sig.Params().At(i)] = true
+			}
+		}
+		if len(params) == 0 {
+			continue
+		}
+		n++
+		info := f.Info()
+		bad := ""
+		for _, r := range Returns(f.Body()) {
+			if len(r.Results) != 1 {
+				continue
+			}
+			ast.Inspect(r.Results[0], func(nd ast.Node) bool {
+				id, ok := nd.(*ast.Ident)
+				if !ok {
+					return true
+				}
+				o := info.Uses[id]
+				if params[o] {
+					bad = "returns (something derived from) its parameter `" + id.Name + "` at " + p.Position(r.Pos())
+				}
+				// locals derived from parameters by type assertion / indexing
+				if v, isVar := o.(*types.Var); isVar && !v.IsField() && !params[o] {
+					for _, d := range defsOf(info, f.Body(), v) {
+						ast.Inspect(d, func(m ast.Node) bool {
+							if id2, ok := m.(*ast.Ident); ok && params[info.Uses[id2]] {
+								if _, isPtr := v.Type().Underlying().(*types.Pointer); isPtr || types.IsInterface(v.Type()) {
+									bad = "returns `" + id.Name + "`, which aliases its parameter `" + id2.Name + "`, at " + p.Position(r.Pos())
+								}
+							}
+							return true
+						})
+					}
+				}
+				return true
+			})
+		}
+		c.Oblige("fresh-result:"+f.Name, f.Pos(), bad == "", bad)
+	}
+	c.Floor("exported functions from Options to Options", n, 1)
+}
